@@ -100,7 +100,7 @@ Proof. exact C14_check_sound. Qed.
 Print Assumptions C14_checker_sound.
 
 (* Non-vacuity: two callers (2 jobs and 1 job), one worker, Stop allowed, unbuffered input: an
-   explicit 60-step schedule with a racing Stop reaches a terminal state; there every caller has
+   schedule (always fire the first enabled label; it includes a racing Stop) reaches a terminal state; there every caller has
    returned and caller 0 received its jobs 0 and 1 exactly once. *)
 Definition C14_example_cfg : config := mkConfig 0 1 2 (fun c => 2 - c) true (fun _ => false).
 Fixpoint C14_greedy (fuel : nat) (s : state) : state :=
